@@ -10,6 +10,7 @@ import (
 	"context"
 	"crypto/sha1"
 	"encoding/json"
+	"errors"
 	"fmt"
 	"io"
 	"net"
@@ -107,11 +108,20 @@ type H struct {
 	FSM *fsm.FSM
 	Pub *RecPublisher
 	GC  *state.TombstoneGC
+	// FailCommit makes the change-event generation step inside the next write transaction's Commit fail (fault point of
+	// C05, installed through the verif hook state.VerifFailChangeProcessing); the caller resets it after the command.
+	FailCommit bool
 }
 
 func New() *H {
 	h := &H{Pub: &RecPublisher{}}
 	h.FSM = NewFSM(h.Pub)
+	h.Store().VerifFailChangeProcessing(func() error {
+		if h.FailCommit {
+			return errors.New("verif: injected failure of the change-processing step")
+		}
+		return nil
+	})
 	return h
 }
 
